@@ -62,6 +62,9 @@ def leaf_text(i, kind):
         return 'cK.v:yes'
     if kind == 'chi':
         return 'ck.v:yes'
+    if kind == 'pct':
+        # an escaped literal percent sign in the match
+        return 'role:p%d-100%%%%' % i
     if kind == 'op':
         # a role name with an opening parenthesis inside
         return 'role:p(%d' % i
@@ -89,6 +92,9 @@ def realise(kinds, mask):
         elif k == 'op':
             if v:
                 creds['roles'].append('p(%d' % i)
+        elif k == 'pct':
+            if v:
+                creds['roles'].append('p%d-100%%' % i)
         elif k == 'path':
             creds['%s%d' % (PATH_PREFIX[i % 4], i)] = {'v': 'yes' if v
                                                        else 'no'}
@@ -235,6 +241,7 @@ def run_T(cx, job):
             labelings.append(('sq',) * k)
             labelings.append(('role',) * (k - 1) + ('op',))
             labelings.append(('op',) * k)
+            labelings.append(('pct',) + ('role',) * (k - 1))
             labelings.append(('clo', 'chi') + ('role',) * (k - 2))
             labelings.append(('role',) * (k - 2) + ('chi', 'clo'))
         if k <= 3:
@@ -247,7 +254,7 @@ def run_T(cx, job):
             idx += 1
             if idx % job['of'] != job['shard']:
                 continue
-            kinds = tuple(x if x in KINDS + ('clo', 'chi', 'sq', 'op')
+            kinds = tuple(x if x in KINDS + ('clo', 'chi', 'sq', 'op', 'pct')
                           else 'role'
                           for x in lab)
             leafs = [x if x in '@!' else leaf_text(i, x)
